@@ -224,6 +224,7 @@ def main():
         except BaseException as e:
             f.write(json.dumps(dict(import_failed=repr(e)[:300])) + '\n')
             return 0
+        n_to = 0
         for case in spec['cases']:
             f.write(json.dumps(dict(start=case['idx'])) + '\n')
             f.flush()
@@ -235,6 +236,9 @@ def main():
                 res = dict(idx=case['idx'], harness_error=repr(e)[:300] + ' | ' + traceback.format_exc()[-400:])
             f.write(json.dumps(res) + '\n')
             f.flush()
+            n_to += int(bool(res.get('timeout')))
+            if n_to >= spec.get('max_timeouts', 3):
+                break       # enough non-terminating schematics to decide the run
     return 0
 
 
